@@ -33,8 +33,10 @@
 /* ---- the boolean word tables (defined in conf.c: `const char *true_vals[] = {...}`;
  * options.c only reads them).  The arrays are not const objects, DFCC havocs them:
  * every harness calls vopt_env_init() first. */
+#ifndef VERIF_NATIVE       /* (a native replay links the real conf.c and the real libc) */
 const char *true_vals[] = { "1", "on", "true", "yes" };
 const char *false_vals[] = { "0", "off", "false", "no" };
+#endif
 static const char vopt_w_1[] = "1", vopt_w_on[] = "on", vopt_w_true[] = "true", vopt_w_yes[] = "yes";
 static const char vopt_w_0[] = "0", vopt_w_off[] = "off", vopt_w_false[] = "false", vopt_w_no[] = "no";
 
@@ -53,12 +55,16 @@ const char *vg_dup_src; char *vg_dup_res;  /* source and result of the recorded 
 const char *vg_old_ptr;             /* old value of a ghost-indexed pointer slot          */
 char *vg_arena; size_t vg_arena_size, vg_arena_off;   /* bump allocator for strdup under VOPT_STRDUP_ARENA */
 
+#ifdef VERIF_NATIVE
+static void vopt_env_init(void) { }
+#else
 static void vopt_env_init(void)
 {
     true_vals[0] = vopt_w_1; true_vals[1] = vopt_w_on; true_vals[2] = vopt_w_true; true_vals[3] = vopt_w_yes;
     false_vals[0] = vopt_w_0; false_vals[1] = vopt_w_off; false_vals[2] = vopt_w_false; false_vals[3] = vopt_w_no;
     vg_p1 = vg_p2 = vg_lastp = (const char *) 0;   /* nothing registered until the harness says so */
 }
+#endif
 
 /* client help handler that RETURNS (the most general client: the default one exits,
  * which only removes paths).  Counted. */
@@ -67,7 +73,9 @@ void vopt_help(void) { vg_help_calls++; }
 void vopt_abstract(spif_charptr_t v) { vg_abst_calls++; vg_abst_arg = (const char *) v; }
 
 /* exit() ends the process */
+#ifndef VERIF_NATIVE
 void exit(int c) { __CPROVER_assume(0); }
+#endif
 
 /* ---- loop-contract text for spifopt_parse (annot/options.c.options.ann inserts only these macro
  * names; a unit that verifies a loop of spifopt_parse defines the macro before including this
@@ -84,7 +92,9 @@ void exit(int c) { __CPROVER_assume(0); }
 # define VOPT_COMPACT_GHOST_AFTER
 #endif
 
-#ifndef VOPT_CONCRETE
+#ifdef VERIF_NATIVE
+# define vopt_strtol strtol      /* the reference reading uses the real strtol as well */
+#elif !defined(VOPT_CONCRETE)
 /* =========================== abstract model (P units) ========================== */
 static size_t vopt_abs_len(const char *s)
 {
